@@ -45,6 +45,19 @@ CHECKS = {
             "elements, their values, the is_input flags and the formulas executed must be exactly what 'discard the edited "
             "element's transitive dependents and nothing else' predicts. Edits are aimed at held elements that have dependents.",
             "dependency relation from vf/ref.py + vf/memo.py; recalc-on compares final states only; inputs inside ItemSpaces are not asserted to survive re-creation of the instance"),
+    "C08": ("exploration",
+            "property-based testing (Hypothesis) of evaluation/failure/edit histories; preds/succs/precedents and the trace graph compared with edges folded from the reference interpreter's call trees",
+            "The fault plans of C05 and the value-edit histories of C06 are replayed; after every step, for every element holding a "
+            "computed value, preds(), succs() and the reference part of precedents() are compared with what the reference "
+            "interpreter recorded when the element was computed, and the keyed nodes of model.tracegraph must be exactly the "
+            "held elements, acyclic, without deleted objects.",
+            "reference call trees (vf/ref.py, vf/memo.py); references compared by name; orphan object nodes of uncached cells tolerated"),
+    "C09": ("exploration",
+            "differential testing: each Hypothesis-generated history is replayed under all 2^n initial cached-flag assignments (n<=5, exhaustive per case) and compared with the all-cached run",
+            "Every generated history (evaluations, reference/formula/membership/base edits, flag flips) is replayed under every "
+            "initial assignment of the cached flag to up to five chosen cells; all query outcomes must equal the all-cached run. "
+            "Uncached cells must hold no values, run on every call, accept unhashable arguments and reject assignment.",
+            "None-returning formulas and assignments to flag-carrying cells are outside the generated domain; per-case enumeration of assignments is exhaustive, cases are sampled"),
 }
 
 NOT_YET = {
